@@ -222,9 +222,18 @@ def _dosing_classes(repo):
 
 
 def _entries(repo, recv):
+    """Entry points of the typestate walks: every method a caller can reach
+    with the object in a consistent state.  Private helpers that the pinned
+    tree does not have (extracted later; chk/inline.py substitutes them into
+    their callers) are not entry points — they run mid-update by design."""
+    from ..inline import load_baseline
+    known = load_baseline()
     seen = {}
     for k in repo.mro(recv):
         for m, fn in repo.cls(k).methods.items():
+            if m.startswith('_') and not m.startswith('__') \
+                    and m not in known:
+                continue
             if m not in seen:
                 seen[m] = (k, fn)
     return seen
